@@ -21,6 +21,12 @@ RULE = (
     "type of ONE value of extra holding the same value (float / np.float64 / float subclass, int / bool / np.bool_ / int subclass, "
     "str / np.str_ / str subclass, dict / OrderedDict / defaultdict / dict subclass, ndarray / ndarray subclass; either side the "
     "subclass) - these two families are asked from BOTH sides (==, !=, equals, aequals, diff, assert_* of (x, y) and of (y, x)); "
+    "HISTORIES on one decision matrix: first other matrices are derived from it (dm.copy(<member>=...) for each member in turn, "
+    "several members at once, 1-3 times; entries of the returned to_dict() replaced), then it is compared with itself, a plain "
+    "dm.copy() / deepcopy, an identically constructed twin, or dm.copy(<one member>=...) (exactly that member differs); results / "
+    "comparators identical except for ONE int / bool / object ndarray of extra (top level or nested) of a different shape on each "
+    "side - broadcast-compatible ([1]|[k], 0-d|1-d, [k,k]|[k], [0]|[1], most often one repeated value) or not ([k]|[k+1], [0]|[k]) - "
+    "asked from both sides; "
     "numeric members changed by 0.37x (within) or 2.7x (beyond) a design tolerance drawn from the grid; different "
     "shapes / lengths including 1 (broadcasting) and 0; unrelated types (dm / rank / kernel / comparator / int / None / str / list / "
     "float / dict / ndarray); unrelated random pairs of the same kind; pairs with NaN. Every pair is compared at its design tolerance "
@@ -198,6 +204,38 @@ def _mk_other(kind):
             "ndarray": np.array([1.0, 2.0, 3.0])}[kind]
 
 
+def _copy_kw(kw):
+    """spec of keyword arguments of DecisionMatrix.copy(**kw) -> the values"""
+    out = {}
+    for k, v in kw.items():
+        if k == "matrix":
+            out[k] = [[_num(c) for c in row] for row in v]
+        elif k == "weights":
+            out[k] = [_num(c) for c in v]
+        else:
+            out[k] = list(v)
+    return out
+
+
+def run_history(x, history):
+    """what was done with the object `x` BEFORE the comparison (none of it may change x): derive other matrices from it with
+    x.copy(<member>=...), or replace entries of the dictionary x.to_dict() returned.  Returns one record per step."""
+    done = []
+    for step in history:
+        try:
+            kw = _copy_kw(step["kw"])
+            if step["op"] == "copy":
+                x.copy(**kw)
+            elif step["op"] == "to_dict_update":
+                x.to_dict().update(kw)
+            else:
+                raise KeyError(step["op"])
+            done.append({"ok": True})
+        except Exception as e:
+            done.append({"err": type(e).__name__, "msg": str(e)[:160]})
+    return done
+
+
 def build(spec, left=None):
     import pandas as pd
     import skcriteria as skc
@@ -214,6 +252,8 @@ def build(spec, left=None):
         if how == "copy":
             return _copy.copy(left)
         if how == "dm.copy":
+            if spec.get("kw"):
+                return left.copy(**_copy_kw(spec["kw"]))
             return left.copy(dtypes=list(spec["dtypes"])) if spec.get("dtypes") else left.copy()
         if how == "rebuild":
             return RanksComparator(left.ranks)
@@ -383,10 +423,13 @@ def observe(case):
 
     warnings.simplefilter("ignore")
     x = build(case["left"])
+    hist = run_history(x, case["history"]) if case.get("history") else None
     y = build(case["right"], x)
     oid = _Oids()
     lenient = bool(case.get("oracle_only"))
     obs = {"left": to_model(x, oid, lenient), "right": to_model(y, oid, lenient)}
+    if hist is not None:
+        obs["history"] = hist
     obs["eq"] = _call(lambda: x == y)
     obs["ne"] = _call(lambda: x != y)
     obs["equals"] = _call(lambda: x.equals(y))
@@ -561,6 +604,9 @@ def judge(case, obs, replies):
     l, r = obs["left"], obs["right"]
     rel = case["relation"]
     finite = case.get("finite", True)
+    for step, h in zip(case.get("history") or [], obs.get("history") or []):
+        if "err" in h:  # deriving a matrix with valid replaced members is not expected to fail (not a comparison: not C17 itself)
+            corr(f"history step {step['op']}({sorted(step['kw'])}) raised {h['err']}: {h.get('msg')}", "no exception", h["err"])
     tols = [_default_tol(l)] + [list(t) for t in case["tols"]]
     per = [obs["default"]] + obs["tols"]
     names = ["default kwargs"] + ["rtol=%g atol=%g equal_nan=%s check_dtypes=%s" % tuple(t) for t in case["tols"]]
@@ -785,6 +831,13 @@ def tags(case, obs):
         t.append("other:" + obs["right"]["kind"] + ":" + str(obs["right"].get("type")))
     if case["relation"] == "shape":
         t.append("shape:" + case.get("shape_note", "?"))
+    if case.get("history"):
+        t.append("history:%d-steps" % len(case["history"]))
+        for step in case["history"]:
+            t.append("history:%s:%s" % (step["op"], "+".join(sorted(step["kw"]))))
+        t.append("after-history:" + case["relation"] + ":" + str(case["right"].get("how", case["right"].get("o"))))
+    if case.get("xshape"):
+        t.append("extra-array-shapes:" + case["xshape"])
     if not case.get("finite", True):
         t.append("has-nan")
     if obs.get("_skipped_near"):
@@ -1151,6 +1204,110 @@ def _subtype_pair(rng, spec):
     return left, right, "%s:%s|%s" % (kind, a, b)
 
 
+def _dm_dtypes(spec):
+    """the dtypes mkdm gives the criteria of a generated matrix without boolean columns"""
+    return ["int64" if k == "int" else "float64" for k in spec["colkinds"]]
+
+
+def _copy_step(rng, spec, member, exact=False):
+    """keyword arguments {member: value} for dm.copy(**kw) that replace exactly `member` of the matrix built from `spec`
+    (matrices without boolean columns); returns (kw, change) or None.  `exact`: the derived matrix is to be compared as a
+    one-member change (dtypes: the same values in a wider kind)"""
+    m, n = len(spec["matrix"]), len(spec["criteria"])
+    if member == "dtypes":
+        if m == 0 or n == 0 or "bool" in spec["colkinds"]:
+            return None
+        dts = _dm_dtypes(spec)
+        ints = [j for j in range(n) if spec["colkinds"][j] == "int"]
+        if exact:
+            if not ints:
+                return None
+            dts[rng.choice(ints)] = "float64"  # the same whole numbers held as floats
+        else:
+            j = rng.randrange(n)
+            dts[j] = rng.choice(["float64", "int32", "int16"]) if spec["colkinds"][j] == "int" else "float32"
+        return {"dtypes": dts}, {}
+    r = _change_dm(rng, spec, member)
+    if r is None:
+        return None
+    right, ch = r
+    return {member: right[member]}, ch
+
+
+def _history(rng, spec, first):
+    """1-3 things done with the matrix before the comparison; the first one replaces member `first`"""
+    steps = []
+    members = [first] + [rng.choice(DM_MEMBERS) for _ in range(rng.choice([0, 0, 1, 2]))]
+    for i, mb in enumerate(members):
+        r = _copy_step(rng, spec, mb)
+        if r is None:
+            continue
+        kw = dict(r[0])
+        if rng.random() < 0.25:  # several members replaced at once
+            r2 = _copy_step(rng, spec, rng.choice(DM_MEMBERS))
+            if r2 is not None:
+                kw.update(r2[0])
+        steps.append({"op": "copy" if rng.random() < 0.85 else "to_dict_update", "kw": kw})
+    return steps
+
+
+XKEYS = ["info", "idx", "mask", "q", "k", "tv"]
+
+
+def _xshape_pair(rng, spec):
+    """(left, right, note): the same result twice, ONE value of extra (top level or inside a nested dictionary) being an
+    int / bool / object ndarray (compared exactly) of a DIFFERENT SHAPE on each side: shapes that broadcast against each other
+    ([1] | [k], 0-d | 1-d, [k,k] | [k], [0] | [1] ...) - most often holding one repeated value, so that an elementwise
+    broadcasting comparison would see nothing but equal cells - or shapes that do not broadcast ([k] | [k+1], [0] | [k], ...)"""
+    left = _copy.deepcopy(spec)
+    n = len(spec["alternatives"])
+    target, path = left["extra"], []
+    if rng.random() < 0.3:
+        left["extra"]["sub"] = {"t": "dict", "v": gen_extra(rng, n, depth=1)}
+        target, path = left["extra"]["sub"]["v"], ["sub"]
+    k = rng.choice([2, 3, 3, 4, max(n, 2)])
+    if rng.random() < 0.7:
+        sa, sb = rng.choice([([1], [k]), ([1], [k]), ([], [k]), ([], [1]), ([k, k], [k]), ([2, 2], [2]), ([1, k], [k]),
+                             ([k, 1], [k]), ([k, 1], [1, k]), ([0], [1]), ([0], []), ([1, 1], [1]), ([], [1, 1]),
+                             ([2, k], [k]), ([1], [1, 1])])
+        note = "broadcast"
+    else:
+        sa, sb = rng.choice([([k], [k + 1]), ([k + 1], [k]), ([k], [k + 2]), ([0], [k]), ([2, 3], [2]), ([k, k + 1], [k]),
+                             ([k], [2, k + 1]), ([3], [2])])
+        note = "no-broadcast"
+    t = rng.choice(["iarr", "iarr", "iarr", "barr", "barr", "oarr"])
+
+    def val():
+        return (rng.random() < 0.5) if t == "barr" else rng.randint(0, 9)
+
+    def size(sh):
+        out = 1
+        for d in sh:
+            out *= d
+        return out
+
+    if rng.random() < 0.8:
+        v = val()
+        da, db = [v] * size(sa), [v] * size(sb)
+        note += ":all-equal"
+    else:
+        pool = [val() for _ in range(max(size(sa), size(sb), 1))]
+        da, db = pool[:size(sa)], pool[:size(sb)]
+        note += ":prefix"
+    a, b = {"t": t, "shape": list(sa), "data": da}, {"t": t, "shape": list(sb), "data": db}
+    if rng.random() < 0.5:
+        a, b = b, a
+    key = rng.choice(XKEYS)
+    target[key] = a
+    right = _copy.deepcopy(left)
+    tt = right["extra"]
+    for p in path:
+        tt = tt[p]["v"]
+    tt[key] = b
+    return left, right, "%s:%s:%s|%s%s" % (t, note, "x".join(map(str, a["shape"])) or "0-d", "x".join(map(str, b["shape"])) or "0-d",
+                                            ":nested" if path else "")
+
+
 def _change_extra(rng, ex, n):
     """exactly the extras changed; returns (new extra, change) or None"""
     new = _copy.deepcopy(ex)
@@ -1394,6 +1551,54 @@ def gen(ctx):
             right["ranks"][i][1] = ri
             member = "ranks"
         cases.append(_mk("subtype", left, right, _tols(ctx, rng), member=member, oracle_only=True, both_ways=True, sub=note))
+
+    # 1b. HISTORIES on one decision matrix: other matrices are derived from it first (dm.copy(<member>=...) for every member in
+    #     turn, several members at once, several times; entries of the returned to_dict() replaced), THEN the matrix is compared
+    #     with itself, a plain copy, an identically constructed twin, or a matrix derived from it with exactly one member replaced
+    for it in range(ctx.n(66, 900)):
+        left = gen_dm(rng, m=rng.choice([1, 2, 3, 4]), n=rng.choice([1, 2, 3, 4]), allow_special=False)
+        if rng.random() < 0.5 and "int" not in left["colkinds"]:
+            c = rng.randrange(len(left["criteria"]))
+            left["colkinds"][c] = "int"
+            for row in left["matrix"]:
+                row[c] = rng.randint(-5, 40)
+        hist = _history(rng, left, DM_MEMBERS[it % len(DM_MEMBERS)])
+        if not hist:
+            continue
+        p = rng.random()
+        if p < 0.55:
+            cases.append(_mk("copy", left, {"o": "copy", "how": "dm.copy"}, _tols(ctx, rng), history=hist))
+        elif p < 0.65:
+            cases.append(_mk("copy", left, {"o": "copy", "how": rng.choice(["deepcopy", "copy"])}, _tols(ctx, rng), history=hist))
+        elif p < 0.77:
+            cases.append(_mk("same_ctor", left, _copy.deepcopy(left), _tols(ctx, rng), history=hist))
+        elif p < 0.82:
+            cases.append(_mk("identical", left, {"o": "left"}, _tols(ctx, rng), history=hist))
+        else:
+            member = rng.choice(DM_MEMBERS)
+            r = _copy_step(rng, left, member, exact=True)
+            if r is None:
+                continue
+            kw, ch = r
+            cases.append(_mk("one_member", left, {"o": "copy", "how": "dm.copy", "kw": kw},
+                             _tols(ctx, rng, ch.get("design_tol"), True if member == "dtypes" and rng.random() < 0.7 else None),
+                             member=member, change=ch, history=hist if rng.random() < 0.8 else []))
+
+    # 2d. results / comparators identical except for ONE exact-valued (int / bool / object) ndarray of extra that has a different
+    #     shape on each side (broadcast-compatible or not): unequal from both sides, diff names that member, nothing raises
+    for _ in range(ctx.n(60, 900)):
+        if rng.random() < 0.65:
+            left, right, note = _xshape_pair(rng, gen_result(rng, n=rng.choice([1, 2, 3, 4, 5])))
+            member = "extra_"
+        else:
+            left = gen_rcmp(rng, n=rng.choice([1, 2, 3, 4]))
+            i = rng.randrange(len(left["ranks"]))
+            li, ri, note = _xshape_pair(rng, left["ranks"][i][1])
+            left["ranks"][i][1] = li
+            right = _copy.deepcopy(left)
+            right["ranks"][i][1] = ri
+            member = "ranks"
+        cases.append(_mk("one_member", left, right, _tols(ctx, rng), member=member, change={}, both_ways=True, xshape=note))
 
     # 3. different shapes / lengths, including 1 and 0
     for _ in range(ctx.n(60, 1200)):
